@@ -846,6 +846,10 @@ class Interp(object):
                 if x is item or (isinstance(x, Term) and x == item):
                     return True
             return ABoolTerm("in", item, container)
+        if isinstance(container, ARec):
+            # a literal test on the record's text (case-sensitive, one strand): a fact about the record like any other
+            self.path.effects.append(("text-test", "in", item, container))
+            return ABoolTerm("in", item, container)
         raise AnalysisError("cannot model %r in %r" % (item, container))
 
     # -- errors -------------------------------------------------------------
@@ -2484,8 +2488,29 @@ class Frame(object):
             return v
         obj = AObj(ci, {}, name=ci.name)
         owner, init = p.class_attr_def(ci, "__init__")
+        dc_fields = _dataclass_fields(p, ci) if not isinstance(init, FuncInfo) else None
         if isinstance(init, FuncInfo):
             I.call_function(init, [obj] + list(args), dict(kwargs), node)
+        elif dc_fields is not None:
+            # the generated __init__: positional / keyword arguments onto the annotated fields, in order, then __post_init__
+            names = [f for f, _ in dc_fields]
+            if len(args) > len(names) or any(k not in names for k in kwargs):
+                raise RaiseSig(AExc("TypeError", ["%s() got unexpected arguments" % ci.name], {}))
+            given = dict(zip(names, args))
+            for k, v in kwargs.items():
+                if k in given:
+                    raise RaiseSig(AExc("TypeError", ["%s() got multiple values for argument %r" % (ci.name, k)], {}))
+                given[k] = v
+            for f, default in dc_fields:
+                if f in given:
+                    obj.attrs[f] = given[f]
+                elif default is not None:
+                    obj.attrs[f] = Frame(I, None, {}, module=getattr(ci, "module", None) or self.m).expr(default)
+                else:
+                    raise RaiseSig(AExc("TypeError", ["%s() missing required argument %r" % (ci.name, f)], {}))
+            _, post = p.class_attr_def(ci, "__post_init__")
+            if isinstance(post, FuncInfo):
+                I.call_function(post, [obj], {}, node)
         elif args or kwargs:
             self.unsupported(node, "constructor arguments without __init__")
         return obj
@@ -2611,6 +2636,28 @@ def _namedtuple_fields(p, ci):
     return None
 
 
+def _dataclass_fields(p, ci):
+    """[(field, default expression or None)] when the class is a @dataclass (fields of the bases first), else None"""
+    out, found = [], False
+    for c in reversed([c for c in p.mro(ci) if getattr(c, "node", None) is not None]):
+        node = c.node
+        is_dc = any(ast.unparse(d.func if isinstance(d, ast.Call) else d) in ("dataclasses.dataclass", "dataclass") for d in node.decorator_list)
+        if not is_dc:
+            continue
+        found = found or c is ci
+        for st in node.body:
+            if isinstance(st, ast.AnnAssign) and isinstance(st.target, ast.Name) and "ClassVar" not in ast.unparse(st.annotation):
+                default = st.value
+                if isinstance(default, ast.Call) and ast.unparse(default.func) in ("dataclasses.field", "field"):
+                    kw = {k.arg: k.value for k in default.keywords}
+                    default = kw.get("default")
+                    if default is None and "default_factory" in kw:
+                        default = ast.Call(func=kw["default_factory"], args=[], keywords=[])
+                        ast.fix_missing_locations(default)
+                out = [x for x in out if x[0] != st.target.id] + [(st.target.id, default)]
+    return out if found else None
+
+
 def lib_getattr(fr: Frame, base, a: str, node):
     I = fr.I
     if isinstance(base, AExitStack):
@@ -2658,6 +2705,9 @@ def lib_getattr(fr: Frame, base, a: str, node):
         if a == "annotations":
             if a in base.attrs:
                 return base.attrs[a]
+            if base.deriv and base.deriv[0] == "slice":
+                # a slice owns its annotations (lemma getitem: a deep copy of the library slice's)
+                return Term("annotations", Term("slice-of", base.ident))
             t = Term("annotations", base.ident)
             return t
         if a == "features":
@@ -2886,10 +2936,27 @@ def lib_call_method(fr: Frame, bm: BoundMethod, args, kwargs, node):
             if not t.items:
                 raise RaiseSig(AExc("IndexError", ["pop from an empty %s" % ("deque" if name == "popleft" else "list")], {}))
             return t.items.pop(0 if name == "popleft" else -1)
+        if name == "extend" and len(args) == 1 and isinstance(args[0], (list, tuple)):
+            args = [AList(list(args[0]), I.loop_depth)]
         if name == "extend" and isinstance(args[0], AList):
-            t.items.extend(args[0].items)
-            t.generic = t.generic or args[0].generic or t.depth < I.loop_depth
+            src = args[0]
+            if src.generic and not t.generic:
+                t.generic_from = len(t.items) + src.generic_from
+            t.items.extend(src.items)
+            t.generic = t.generic or src.generic or t.depth < I.loop_depth
+            I.path.effects.append(("mutate", t, "extend", args))
             return None
+        if name == "extend" and len(args) == 1:
+            # the same list as `t + list(arg)`, in place
+            both = fr.binop(ast.Add(), t, lib_call(fr, "builtins.list", [args[0]], {}, node), node)
+            if isinstance(both, AList):
+                t.items[:] = both.items
+                t.generic, t.generic_from, t.min_len = both.generic, both.generic_from, both.min_len
+                for extra in ("source", "filtered"):
+                    if hasattr(both, extra):
+                        setattr(t, extra, getattr(both, extra))
+                I.path.effects.append(("mutate", t, "extend", args))
+                return None
         if name in ("index", "find", "count"):
             hook = I.hooks.get("list_method")
             if hook is not None:
@@ -3256,8 +3323,12 @@ def lib_call(fr: Frame, dotted: str, args, kwargs, node):
             return AMapGen(args[0].args[0].name, args[0].args[0].value)
         if not args and not kwargs:
             return {}
-        if len(args) == 1 and isinstance(args[0], dict) and not kwargs:
-            return dict(args[0])  # a shallow copy: nested values stay shared
+        if not args and kwargs:
+            return dict(kwargs)  # dict(a=x, b=y)
+        if len(args) == 1 and isinstance(args[0], dict):
+            out = dict(args[0])  # a shallow copy: nested values stay shared
+            out.update(kwargs)
+            return out
         if len(args) == 1 and isinstance(args[0], Term):
             return Term("shallow-copy", args[0])
     if dotted == "builtins.list" and len(args) == 1 and isinstance(args[0], Term) and args[0].op not in ("values", "keys", "items", "map", "filter", "sorted", "enumerate"):
@@ -3489,7 +3560,29 @@ def _map_filter_zip(fr: Frame, which: str, args, node):
             out.filtered = False
             return out
         elem = I.new_term("elem")
-        return Term("map", src, _t(image([(c.value if isinstance(c, ARepeat) else elem) for c in its])), Term("over", elem))
+        val = image([(c.value if isinstance(c, ARepeat) else elem) for c in its])
+        t = Term("map", src, _t(val), Term("over", elem))
+        t._lazy = (src, elem, val)  # what one element maps to, for whoever walks this view in step with its source
+        return t
+    # several views of one opaque iterable walked in step: the iterable itself and images mapped from it
+    def term_src(x):
+        return x._lazy[0] if isinstance(x, Term) and getattr(x, "_lazy", None) else x
+
+    if all(isinstance(x, Term) for x in finite) and len({repr(term_src(x)) for x in finite}) == 1:
+        elem = I.new_term("elem")
+        elems = []
+        for x in its:
+            if isinstance(x, ARepeat):
+                elems.append(x.value)
+            elif getattr(x, "_lazy", None):
+                elems.append(subst_value(x._lazy[2], x._lazy[1], elem))
+            else:
+                elems.append(elem)
+        val = image(elems)
+        src = term_src(finite[0])
+        t = Term("map", src, _t(val), Term("over", elem))
+        t._lazy = (src, elem, val)
+        return t
     # several views of one input collection, walked in step: the collection itself and lists mapped from it
     def src_name(x):
         if isinstance(x, AFeatList):
@@ -3524,6 +3617,29 @@ def _map_filter_zip(fr: Frame, which: str, args, node):
         out.filtered = False
         return out
     fr.unsupported(node, "%s over %r" % (which, its))
+
+
+def subst_value(v, old: Term, new):
+    """v with every occurrence of the term `old` replaced by `new` (through tuples, lists, dicts, terms and structs)"""
+    if isinstance(v, Term):
+        if v == old:
+            return new
+        if not v.args:
+            return v
+        args = tuple(subst_value(a, old, new) for a in v.args)
+        if all(a is b for a, b in zip(args, v.args)):
+            return v
+        t = Term(v.op, *args)
+        return t
+    if isinstance(v, tuple):
+        return tuple(subst_value(x, old, new) for x in v)
+    if isinstance(v, list):
+        return [subst_value(x, old, new) for x in v]
+    if isinstance(v, dict):
+        return {k: subst_value(x, old, new) for k, x in v.items()}
+    if isinstance(v, AStruct):
+        return AStruct(v.kind, **{k: subst_value(x, old, new) for k, x in v.fields.items()})
+    return v
 
 
 def lib_isinstance(fr: Frame, v, t, node):
